@@ -16,11 +16,41 @@ PROPS = {
                          'contracts of both roles and the shared frame layout specs'],
         'design_ref': '6 (C01/C02), appendix A',
     },
+    'C02': {
+        'explanation': 'J1939-22 (FD) transport: send_pgn for > 60 octets (refused exactly when all 8 / 4 session numbers of the kind are '
+                       'taken and then without effect; otherwise the lowest free number, a new session that replaces none in flight, '
+                       'payload cut into 60-octet segments, RTS / BAM announce), FD.TP.CM and FD.TP.DT handlers (session open, in-order '
+                       'reassembly buffer = old buffer ++ data octets, cut to the announced size, delivery exactly once on a matching '
+                       'end-of-message status of a completely reassembled message, byte-identical to the buffer, session deleted in the '
+                       'same call), background pass (k-th FD.TP.DT = stored segment k under segment number k+1, EOM status behind the '
+                       'last), dispatch in notify; class invariant Inv22 (session tables, session-number pools, pairwise distinct '
+                       'numbers) preserved by every unit.',
+        'out_of_scope': ['2-3 stacks on one bus with 1..8 + 0..4 simultaneous sessions and per-receiver delivery latencies (whole-bus schedules)',
+                         'composition "originator stack -> bus -> responder stack" end to end; covered through the per-frame contracts of both '
+                         'roles, the shared frame layout specs and the frame conditions (a handler touches only the session of its own key)'],
+        'bounded': ['numpy chunking (np.array/np.split/np.reshape/tolist) is an ASSUMED contract (pyvc/numpy_model.py); bounded native '
+                    'cross-check bounded/fd_roundtrip.py: two real J1939_22 objects back to back, every length 61..4000 (thorough tier), '
+                    'windows 1/3/255 and BAM - never counted as proved'],
+        'design_ref': '6 (C01/C02), appendix A',
+    },
+    'C11': {
+        'explanation': 'FD multi-PG: send_pgn for <= 60 octets (immediate: one frame with exactly this group; with a time limit: first '
+                       'collection buffer for (format, counter, source, destination) with room - fill accounting 4 + length per group, '
+                       '<= 64 in total as class invariant, earliest deadline kept, job thread woken whenever a buffer is created, gets a '
+                       'group or is made due; groups for other keys untouched; FBFF to a specific address refused without effect), frame '
+                       'assembly (groups back to back with their own header and byte-identical data, legal CAN FD length <= 64, padding = '
+                       'TOS-0 header then 0xAA, identifier 0x2500|DA with the most urgent priority), flush by the pass exactly when the '
+                       'deadline has passed, unpacking loop (one step on arbitrary octets; round trip: a frame laid out by the builder is '
+                       'unpacked into exactly its groups, once each, in order, byte-identical).',
+        'out_of_scope': ['"on the bus no later than its time limit plus scheduling latency" in real time (the OS wakes the thread)',
+                         'FBFF end to end (the stack does not receive FBFF)'],
+        'design_ref': '6 (C11)',
+    },
     'C03': {
         'explanation': 'every J1939-21 frame builder against the independent SAE layout functions of specs/ (identifier fields, control '
                        'byte, LE16 size, packet counts, LE24 PGN with PS=0 for PDU1 PGNs, 1-based sequence numbers, 0xFF fill); field '
                        'extraction in the handlers; identifier/PGN codecs (C15 units).',
-        'out_of_scope': ['real-time pacing windows (the deadline arithmetic is C09)', 'J1939-22 (FD) builders: pending, see DESIGN'],
+        'out_of_scope': ['real-time pacing windows (the deadline arithmetic is C09)'],
         'design_ref': '6 (C03)',
     },
     'C04': {
@@ -35,7 +65,7 @@ PROPS = {
         'explanation': 'the three filters: bus listener flags (only extended data frames; exceptions contained), destination filter of '
                        'J1939_21.notify before any protocol handling (reject path: empty trace, nothing modified), per-listener delivery '
                        'rule of _notify_subscribers (exactly the selected listeners, once each, in order), CA/ECU acceptance predicates.',
-        'out_of_scope': ['multi-stack bystander histories', 'J1939-22 notify: pending, see DESIGN'],
+        'out_of_scope': ['multi-stack bystander histories'],
         'design_ref': '6 (C05)',
     },
     'C06': {
@@ -43,7 +73,7 @@ PROPS = {
                        '(receive session: removed, abort reason 3 to the originator unless broadcast; send session waiting for CTS: abort '
                        'reason 3 and removed), wake-up of the job thread whenever a deadline is set, re-acceptance after removal '
                        '(send_pgn refuses only while the key is present), completion test counts octets against the announced size.',
-        'out_of_scope': ['virtual time at which both sides are empty, which frame was lost on a real bus', 'J1939-22: pending'],
+        'out_of_scope': ['virtual time at which both sides are empty, which frame was lost on a real bus'],
         'design_ref': '6 (C06)',
     },
     'C07': {
@@ -51,7 +81,7 @@ PROPS = {
                        'length 0..8, also on exceptional exits), by send_pgn and by the background pass; the pass raises nothing and '
                        'progresses: afterwards every remaining session has its deadline in the future and the returned wake-up is in '
                        '(now, now+5] and not later than any deadline (no stall, no busy spin); listener contains handler exceptions.',
-        'out_of_scope': ['that OS timers fire on time afterwards', 'J1939-22: pending'],
+        'out_of_scope': ['that OS timers fire on time afterwards'],
         'design_ref': '6 (C07), appendix A',
     },
     'C09': {
@@ -59,14 +89,14 @@ PROPS = {
                        'sane grant and then waits for the next CTS, hold CTS only extends the wait (Th), CTS ignored unless waiting; '
                        'BAM: one packet per expired deadline, next deadline >= now + interval (default 50 ms); responder: every CTS '
                        'grants <= RTS limit, <= own maximum, <= packets remaining.',
-        'out_of_scope': ['"not more than 200 ms when idle" (needs the OS to run the thread on time)', 'J1939-22: pending'],
+        'out_of_scope': ['"not more than 200 ms when idle" (needs the OS to run the thread on time)'],
         'design_ref': '6 (C09)',
     },
     'C10': {
         'explanation': 'J1939-21: send_pgn returns False iff a session for the (source, destination) key exists, then without any effect; '
                        'every finished / timed-out / aborted session is deleted by the pass (frame conditions of all handlers: '
                        'receive-side handlers never touch the send table).',
-        'out_of_scope': ['"after each history the full batch completes" as a run', 'J1939-22 session-number pools: pending'],
+        'out_of_scope': ['"after each history the full batch completes" as a run'],
         'design_ref': '6 (C10)',
     },
     'C13': {
